@@ -2,6 +2,7 @@
 correspondence (impl | model | spec), shrink, decide, write evidence/replay."""
 import concurrent.futures
 import hashlib
+import itertools
 import importlib
 import json
 import os
@@ -410,6 +411,40 @@ def _classify_stage(mod, prop, findings, cases, impl, ms, viol, known, model_err
 
 
 
+COMMON_SOURCES = ('src/lib.rs', 'src/macros.rs', 'src/utils.rs', 'src/const_for.rs', 'src/algorithms/mod.rs', 'src/algorithms/ops.rs',
+                  'src/cmp.rs', 'src/from.rs', 'src/bytes.rs')
+KERNEL_USERS = ('C02', 'C03', 'C09', 'C10', 'C11', 'C12', 'C13', 'C14', 'C15')
+
+
+def changed_sources(prop):
+    """source files relevant to `prop` whose content differs from the tree the machinery was last run green on
+    (tools/baseline_hashes.json): the property's anchor files, the shared core files and — for the properties built on the limb
+    kernels — src/algorithms/**. Only used to decide how long to search; never a verdict."""
+    bp = os.path.join(ROOT, 'tools', 'baseline_hashes.json')
+    if not os.path.exists(bp):
+        return []
+    base = json.load(open(bp))['files']
+    cur = {}
+    for root in ('src', 'ruint-macro/src'):
+        for dp, _, fn in os.walk(os.path.join(REPO, root)):
+            for f in fn:
+                if f.endswith('.rs'):
+                    q = os.path.join(dp, f)
+                    cur[os.path.relpath(q, REPO)] = hashlib.sha256(open(q, 'rb').read()).hexdigest()
+    diff = sorted(f for f in set(base) | set(cur) if base.get(f) != cur.get(f))
+    if not diff:
+        return []
+    anchors = set()
+    for l in open(os.path.join(ROOT, 'properties.jsonl')):
+        pj = json.loads(l)
+        if pj['id'] == prop:
+            a = pj.get('anchors')
+            anchors = set(a.get('files', [])) if isinstance(a, dict) else set()
+    return [f for f in diff if f in anchors or f in COMMON_SOURCES
+            or (prop in KERNEL_USERS and f.startswith('src/algorithms/'))
+            or (prop in ('C16', 'C17', 'C20') and f.startswith('src/support/'))]
+
+
 def _run_check(prop, tier='quick', seed=None, replay=None):
     t0 = time.time()
     mod = importlib.import_module('props.' + prop.lower())
@@ -500,8 +535,11 @@ def _run_check(prop, tier='quick', seed=None, replay=None):
     timings['impl_s'] = 0.0
     timings['model_s'] = 0.0
     all_cases = []
+    all_impl = []
+    all_ms = []
     hooks = {}
     stage_cases = cases
+    esc_state = None
     while True:
         tr = time.time()
         impl, hk = run_impl(binpath, stage_cases, timeout=getattr(mod, 'TIMEOUT', 900))
@@ -514,13 +552,38 @@ def _run_check(prop, tier='quick', seed=None, replay=None):
         _classify_stage(mod, prop, findings, stage_cases, impl, ms, viol, known, model_errors, opcount, widthcount, outcome,
                         distinct, nontrivial)
         all_cases += stage_cases
+        all_impl += impl
+        all_ms += ms
         real_found = any(v[0] in ('impl-violation', 'both-violate') for v in viol)
         if proof_broken and not replay and tier != 'thorough' and not real_found and not model_errors and stage_cases is cases:
             notes.append('proof obligation broken and the quick generator found no failing input: thorough generator run')
             stage_cases = list(mod.gen(rng, 'thorough'))
             continue
+        if (not proof_broken and not replay and tier != 'thorough' and not viol and not model_errors
+                and os.environ.get('VERIF_ESCALATE', '1') == '1'):
+            # the sources this property rests on differ from the tree the machinery last ran green on: search longer (the
+            # thorough generator, streamed in chunks under a wall-clock budget) before concluding that the property held
+            if esc_state is None:
+                ch = changed_sources(prop)
+                if ch:
+                    esc_state = {'files': ch, 'budget_s': float(os.environ.get('VERIF_ESCALATE_S', '150')), 't0': time.time(),
+                                 'cases': 0, 'it': iter(mod.gen(random.Random(seed + 1), 'thorough'))}
+                    notes.append('sources changed since the recorded baseline (%s): deeper search under a %.0f s budget'
+                                 % (', '.join(ch[:6]), esc_state['budget_s']))
+                else:
+                    esc_state = False
+            if esc_state and time.time() - esc_state['t0'] < esc_state['budget_s'] \
+                    and esc_state['cases'] < int(os.environ.get('VERIF_ESCALATE_MAX', '2000000')):
+                stage_cases = list(itertools.islice(esc_state['it'], 60000))
+                if stage_cases:
+                    esc_state['cases'] += len(stage_cases)
+                    continue
         break
     cases = all_cases
+    impl = all_impl
+    ms = all_ms
+    if esc_state:
+        notes.append('deeper search: %d further cases in %.0f s' % (esc_state['cases'], time.time() - esc_state['t0']))
     extra = {}
     if hasattr(mod, 'extra_checks') and not replay:
         # property-specific checks beyond the line protocol (compile probes etc.)
